@@ -1,15 +1,26 @@
 """C09 — every stream handed to the library is closed exactly once, never used after."""
 import vlib
 from pipes_common import PipeSpec, SampleStreamSpec
+from batch_common import BatchSpec
+from merge_common import SMergeSpec
+from parmap_common import MapStreamSpec
 
 SPECS = {"stream-close": (PipeSpec("stream", False), "harness", "runner"), "stream-close-faults": (PipeSpec("stream", True), "harness", "runner"), "samplestream": (SampleStreamSpec(), "harness", "runner"),
          "stream-close-panics": (PipeSpec("stream", True, panics=True), "harness", "runner")}
+
+# goroutine-backed owners of streams: the scenario families of C11, C12 and C14 (their oracles include "the source is closed
+# exactly once, before Close / the last Next returns, and never used afterwards"), at a reduced size
+CONC = [("batch", BatchSpec, "harness_batch", "runner-batch"), ("smerge", SMergeSpec, "harness_merge", "runner-merge"),
+        ("mapstream", MapStreamSpec, "harness_parmap", "runner-parmap")]
+for _t, _cls, _m, _e in CONC:
+    SPECS[_t] = (_cls(), _m, _e)
 
 PROP_FILES = ["C09"]
 
 
 def run(ctx):
-    proofs_ok = ctx.check_proofs(PROP_FILES, extra_targets=["theories/Iter/Corr.vo"])
+    proofs_ok = ctx.check_proofs(PROP_FILES, extra_targets=["theories/Iter/Corr.vo", "theories/Conc/BatchMatcher.vo", "theories/Conc/MergeMatcher.vo",
+                                                            "theories/Conc/ParMapMatcherComplete.vo"])
     ok, out, exe = vlib.build_runner()
     if not ok:
         ctx.violation("harness-build", "the harness does not build against the current tree: " + out[-1500:], {"build_output": out[-4000:]}, failing_input=False)
@@ -19,7 +30,15 @@ def run(ctx):
     # callbacks, reduction functions and sources that panic (the caller recovers): reducers still close what they own
     vlib.seq_differential(ctx, PipeSpec("stream", faults=True, panics=True), exe, proofs_ok, tag="stream-close-panics", scale=0.6)
     vlib.seq_differential(ctx, SampleStreamSpec(), exe, proofs_ok, tag="samplestream")
+    for tag, cls, module, exe_name in CONC:
+        okc, outc, exec_ = vlib.build_runner(module=module, exe_name=exe_name)
+        if not okc:
+            ctx.violation("harness-build", "the harness does not build against the current tree: " + outc[-1500:], {"build_output": outc[-4000:]}, failing_input=False)
+            continue
+        vlib.seq_differential(ctx, cls(), exec_, proofs_ok, tag=tag, scale=0.4)
     vlib.merge_parts(ctx, "cases = random stream pipelines; the consumer stops after 0..len+3 Next calls and closes, or runs a reducer, with and without faults, with callbacks / reduction functions / sources that panic (recovered by the caller); "
-                     "observed: the Next/Close event log of every instrumented source; distinct = hash of (pipeline, program); non-trivial = at least one combinator and one step")
+                     "observed: the Next/Close event log of every instrumented source; distinct = hash of (pipeline, program); non-trivial = at least one combinator and one step; "
+                     "parts batch / smerge / mapstream: the controller-script scenarios of C11, C12, C14 (goroutine-backed streams: every timing of Close "
+                     "relative to the background work), judged by those models and by their source-close oracles")
     vlib.handle_broken_proof(ctx)
     ctx.finish()
